@@ -21,6 +21,7 @@ type c06Case struct {
 	Fill   string `json:"fill"`   // pattern | zero | ff
 	Reader string `json:"reader"` // how the source io.Reader delivers the payload
 	Dir    string `json:"dir"`    // a2c (accessory encrypts) | c2a (controller-side session encrypts)
+	Start  uint64 `json:"start"`  // frame counters preset to this value through reflection (0 = untouched)
 }
 
 var c06Secrets = [][32]byte{
@@ -167,6 +168,14 @@ func c06Exec(c *fw.Ctx, cas c06Case) {
 		return
 	}
 	var ctr, ctr2 uint64
+	if cas.Start != 0 {
+		if !setCounters(enc, cas.Start, cas.Start) || !setCounters(dec, cas.Start, cas.Start) {
+			c.Note("preset frame counters skipped: " + errNoCounters.Error())
+			c.Eval(-1)
+			return
+		}
+		ctr = cas.Start
+	}
 	for i, n := range cas.Lens {
 		msg := fill(n, cas.Fill, byte(17*i+3))
 		var ct []byte
@@ -235,6 +244,13 @@ func c06RefToHC(c *fw.Ctx, cas c06Case) {
 		dec, _ = hccrypto.NewSecureClientSessionFromSharedKey(secret)
 	}
 	var ctr uint64
+	if cas.Start != 0 {
+		if !setCounters(dec, cas.Start, cas.Start) {
+			c.Eval(-1)
+			return
+		}
+		ctr = cas.Start
+	}
 	for i, n := range cas.Lens {
 		msg := fill(n, cas.Fill, byte(17*i+3))
 		ct := refctl.Frames(key, &ctr, msg)
@@ -317,6 +333,13 @@ func c06Run(c *fw.Ctx) {
 			}
 		}
 	}
+	// counters near and beyond 2^32 and 2^63 (preset through reflection): wire format and round trip
+	for _, st := range []uint64{1<<32 - 2, 1 << 32, 1<<32 + 1, 1 << 40, 1<<63 - 1, 1 << 63, 1<<64 - 5} {
+		for _, dir := range []string{"a2c", "c2a"} {
+			do(c06Case{Secret: 1, Lens: []int{1, 1025, 7}, Fill: "pattern", Reader: "buffer", Dir: dir, Start: st}, false)
+			do(c06Case{Secret: 1, Lens: []int{1, 1025, 7}, Fill: "pattern", Dir: dir, Start: st}, true)
+		}
+	}
 	// long-running counter: 300 one-byte messages then boundary lengths
 	long := make([]int, 300)
 	for i := range long {
@@ -330,7 +353,7 @@ func init() {
 	fw.Register(&fw.Check{
 		ID:     "C06",
 		Level:  "exploration",
-		Rule:   "exhaustive enumeration of payload lengths 0..4097 (plus 8191,8192,8193,65535,65536,65537) × 6 source-reader behaviours (buffer, one byte per Read, halves, 1000-byte chunks, data together with EOF, zero-length reads interleaved) × directions, contents {pattern, zero, 0xFF} × 3 secrets on a length grid, all message sequences of length 2–3 over 7 boundary lengths, a 302-message counter run; each executed on hc's real sessions and compared byte-for-byte with the reference framing, then decrypted by hc's opposite end, and reference ciphertext decrypted by hc. distinct_nontrivial = distinct (direction, reader, frame count) classes",
+		Rule:   "exhaustive enumeration of payload lengths 0..4097 (plus 8191,8192,8193,65535,65536,65537) × 6 source-reader behaviours (buffer, one byte per Read, halves, 1000-byte chunks, data together with EOF, zero-length reads interleaved) × directions, contents {pattern, zero, 0xFF} × 3 secrets on a length grid, all message sequences of length 2–3 over 7 boundary lengths, a 302-message counter run; frame counters preset (reflection) to 2^32−2, 2^32, 2^32+1, 2^40, 2^63−1, 2^63, 2^64−5; each executed on hc's real sessions and compared byte-for-byte with the reference framing, then decrypted by hc's opposite end, and reference ciphertext decrypted by hc. distinct_nontrivial = distinct (direction, reader, frame count) classes",
 		Run:    c06Run,
 		Budget: func(string) time.Duration { return 20 * time.Minute },
 		Replay: func(c *fw.Ctx, raw json.RawMessage) {
